@@ -3,7 +3,7 @@
    ComponentContext.add_resource/_factory name remapping).  Used by C14.  Definitions only. *)
 From Coq Require Import String Ascii.
 From Coq Require Import List Bool Arith.
-From Asphalt Require Import Config.Val Config.MergeSpec.
+From Asphalt Require Import Config.Val Config.MergeSpec Gen.Gen_initcomp.
 Import ListNotations.
 Open Scope string_scope.
 Open Scope list_scope.
@@ -102,7 +102,9 @@ Fixpoint init_component (fuel : nat) (path : string) (cfg : dict) (dn : string) 
               | None => CFail EBadType
               | Some c =>
                   let kwargs := remove "type" (remove "components" cfg) in
-                  let merged := merge (Some (hard c)) ext in
+                  (* which of the two wins is read from the merge_config call in _init_component on this run *)
+                  let merged := if ic_external_overrides_hardcoded then merge (Some (hard c)) ext
+                                else merge ext (Some (hard c)) in
                   match
                     (fix kids (l : dict) : cres (list ctree) :=
                        match l with
